@@ -736,6 +736,8 @@ func (view *View) Offset(ctx context.Context, scope *ReferenceScope, clause pars
 	}
 
 	if view.RecordLen() <= view.offset {
+		// No more records than there are can be skipped: LIMIT ... PERCENT refers to the number of records before the offset.
+		view.offset = view.RecordLen()
 		view.RecordSet = RecordSet{}
 	} else {
 		newSet := view.RecordSet[view.offset:]
